@@ -84,7 +84,54 @@ pub fn varint(n: u64) -> Vec<u8> {
     }
 }
 
+/// compact size written wider than necessary: width 3 (fd), 5 (fe) or 9 (ff) bytes
+fn varint_wide(n: u64, width: u64) -> Vec<u8> {
+    match width {
+        0 if n <= 0xffff => {
+            let mut v = vec![0xfd];
+            v.extend_from_slice(&(n as u16).to_le_bytes());
+            v
+        }
+        1 if n <= 0xffff_ffff => {
+            let mut v = vec![0xfe];
+            v.extend_from_slice(&(n as u32).to_le_bytes());
+            v
+        }
+        _ => {
+            let mut v = vec![0xff];
+            v.extend_from_slice(&n.to_le_bytes());
+            v
+        }
+    }
+}
+
 impl Model {
+    /// the same transaction with some of its compact sizes written non-minimally (mask: 1 input count, 2 input script
+    /// lengths, 4 output count, 8 output script lengths)
+    pub fn serialise_nonminimal(&self, mask: u64, width: u64) -> Vec<u8> {
+        let vi = |n: u64, bit: u64| if mask & bit != 0 { varint_wide(n, width) } else { varint(n) };
+        let mut b = vec![];
+        b.extend_from_slice(&self.version.to_le_bytes());
+        b.extend(vi(self.ins.len() as u64, 1));
+        for i in &self.ins {
+            let mut t = i.txid.clone();
+            t.reverse();
+            b.extend(t);
+            b.extend_from_slice(&i.vout.to_le_bytes());
+            b.extend(vi(i.script.len() as u64, 2));
+            b.extend_from_slice(&i.script);
+            b.extend_from_slice(&i.seq.to_le_bytes());
+        }
+        b.extend(vi(self.outs.len() as u64, 4));
+        for o in &self.outs {
+            b.extend_from_slice(&o.value.to_le_bytes());
+            b.extend(vi(o.script.len() as u64, 8));
+            b.extend_from_slice(&o.script);
+        }
+        b.extend_from_slice(&self.locktime.to_le_bytes());
+        b
+    }
+
     pub fn serialise(&self) -> Vec<u8> {
         let mut b = vec![];
         b.extend_from_slice(&self.version.to_le_bytes());
@@ -607,7 +654,7 @@ impl Scenario for TxHistory {
                             if n_in == 0 {
                                 continue;
                             }
-                            json!({"op": m, "obj": o, "idx": rng.usize(n_in), "txin": Self::gen_txin(rng, &txids, &scripts), "derive": if rng.chance(1, 3) { *rng.pick(&["same", "reencode", "value_only", "script_only", "vout_only"]) } else { "" }})
+                            json!({"op": m, "obj": o, "idx": rng.usize(n_in), "txin": Self::gen_txin(rng, &txids, &scripts), "derive": if rng.chance(1, 3) { *rng.pick(&["same", "reencode", "value_only", "script_only", "vout_only", "taken", "taken"]) } else { "" }, "from_obj": rng.below(4), "from_idx": rng.below(4)})
                         }
                         "add_inputs" => {
                             let k = rng.range(0, 3);
@@ -693,9 +740,9 @@ impl Scenario for TxHistory {
                     continue;
                 }
                 4 => {
-                    let kind = *rng.pick(&["wire", "wire", "json", "cbor", "json_edit"]);
-                    events.push(json!({"op": "restart", "obj": o, "kind": kind, "edit": *rng.pick(&["output_value", "sequence", "vout"]), "r": rng.below(16)}));
-                    if kind == "json_edit" {
+                    let kind = *rng.pick(&["wire", "wire", "json", "cbor", "json_edit", "wire_nonminimal"]);
+                    events.push(json!({"op": "restart", "obj": o, "kind": kind, "edit": *rng.pick(&["output_value", "sequence", "vout"]), "r": rng.below(16), "mask": rng.range(1, 15), "width": rng.below(3)}));
+                    if kind == "json_edit" || kind == "wire_nonminimal" {
                         // the memo a document might have carried along is read next
                         hot = Some((o, if rng.chance(1, 2) { 0 } else { 1 }, 1));
                     }
@@ -823,7 +870,22 @@ impl Scenario for TxHistory {
                     let idx = jusize(ev, "idx");
                     let n = objs[o].model.ins.len();
                     let derive = jstr(ev, "derive");
-                    if op == "set_input" && !derive.is_empty() && idx < n && objs[o].model_valid {
+                    if op == "set_input" && derive == "taken" {
+                        // round 12: the replacement is the very object the library handed out - `get_input(j)` of this or of
+                        // another live transaction, untouched (what a swap of two inputs or a copy between transactions does)
+                        let fo = jusize(ev, "from_obj") % objs.len();
+                        let fi = jusize(ev, "from_idx");
+                        if objs[fo].model_valid && fi < objs[fo].model.ins.len() {
+                            if let Ok(Some(t)) = guard(|| objs[fo].tx.get_input(fi)) {
+                                ctx.probe("replacement_taken_from_get_input");
+                                if fo != o {
+                                    ctx.probe("replacement_taken_from_another_object");
+                                }
+                                txin = t;
+                                min = objs[fo].model.ins[fi].clone();
+                            }
+                        }
+                    } else if op == "set_input" && !derive.is_empty() && idx < n && objs[o].model_valid {
                         if let Some(d) = derive_in(&objs[o].model.ins[idx], derive, &min) {
                             if let Some(t) = txin_of(&d) {
                                 ctx.probe(&format!("replacement_derived:{}", derive));
@@ -1341,6 +1403,17 @@ impl Scenario for TxHistory {
                     let mut edited_model: Option<Model> = None;
                     let restored: Option<Transaction> = match kind.as_str() {
                         "wire" => lib!("from_bytes", Transaction::from_bytes(&before)).ok(),
+                        "wire_nonminimal" => {
+                            // round 12: the object is rebuilt from a wire form of the same transaction in which some compact
+                            // sizes are written wider than necessary (accepted by the parser and normalised by to_bytes):
+                            // whatever a parser remembers about the bytes it read must be right for what it will serialise
+                            if !objs[o].model_valid || objs[o].model.serialise() != before {
+                                ctx.skip();
+                                continue;
+                            }
+                            let nm = objs[o].model.serialise_nonminimal(ju64(ev, "mask").max(1), ju64(ev, "width"));
+                            lib!("from_bytes", Transaction::from_bytes(&nm)).ok()
+                        }
                         "json_edit" => {
                             // the exported document is edited by whoever holds it before it is imported again (one number changed):
                             // whatever else the document carries along must not outlive the edit
@@ -1433,6 +1506,10 @@ impl Scenario for TxHistory {
                     // a wire parse is history-free by construction; a document may carry whatever its exporter put into it
                     if kind == "wire" {
                         objs[o].primed = false;
+                    }
+                    if kind == "wire_nonminimal" {
+                        ctx.probe("restart_from_nonminimal_wire");
+                        objs[o].primed = true;
                     }
                     touched_cache_ok = true;
                 }
